@@ -289,6 +289,23 @@ def run_free(cases, name, profile="release", timeout=1800):
     return trace_path, runs
 
 
+def run_exec(cases, name, profile="debug", timeout=1800):
+    """tokio-driven executor / Uni / Multi life-cycle cases; returns (trace_path, runs)"""
+    exe = build_harness(profile)
+    d = os.path.join(WORK, "runs")
+    os.makedirs(d, exist_ok=True)
+    cases_path = os.path.join(d, name + ".cases.ndjson")
+    trace_path = os.path.join(d, name + ".trace.ndjson")
+    with open(cases_path, "w") as f:
+        for c_ in cases:
+            f.write(json.dumps(c_) + "\n")
+    p = sh([exe, "exec", cases_path, trace_path], cwd=d, timeout=timeout, check=False, env={"RUST_LOG": "off"})
+    if p.returncode != 0:
+        raise ToolError("executor harness failed (%d) on %s:\n%s" % (p.returncode, name, p.stdout[-3000:]))
+    runs = [json.loads(l) for l in open(trace_path + ".runs")]
+    return trace_path, runs
+
+
 def _split_trace(trace_path, runs, parts):
     """splits the trace at run boundaries into <= parts files; returns [(path, first_line, [runs])]"""
     with open(trace_path) as f:
@@ -506,8 +523,11 @@ class Check:
         return r
 
     # ---- conformance
-    def conform(self, scenarios, name, module, consts, profile="debug", parallel=8, free_cases=None):
-        if free_cases is not None:
+    def conform(self, scenarios, name, module, consts, profile="debug", parallel=8, free_cases=None, exec_cases=None):
+        if exec_cases is not None:
+            trace, runs = run_exec(exec_cases, "%s_%s" % (self.prop, name))
+            summ = {"scenarios": [{"mode": "gated tokio driver", "cases": len(exec_cases)}]}
+        elif free_cases is not None:
             trace, runs = run_free(free_cases, "%s_%s" % (self.prop, name))
             summ = {"scenarios": [{"id": x.get("id"), "mode": "free-running", "threads": x.get("threads"), "rounds": x.get("rounds"), "runs": x.get("runs")} for x in free_cases]}
         else:
